@@ -1294,6 +1294,7 @@ impl<'input, T: Input> Scanner<'input, T> {
 
     fn scan_uri_escapes(&mut self, mark: &Marker) -> Result<char, ScanError> {
         let mut width = 0usize;
+        let mut len = 0usize;
         let mut code = 0u32;
         loop {
             self.input.lookahead(3);
@@ -1322,6 +1323,7 @@ impl<'input, T: Input> Scanner<'input, T> {
                         ));
                     }
                 };
+                len = width;
                 // Keep the payload bits of the leading byte only.
                 code = match width {
                     1 => byte,
@@ -1348,8 +1350,9 @@ impl<'input, T: Input> Scanner<'input, T> {
         }
 
         match char::from_u32(code) {
-            Some(ch) => Ok(ch),
-            None => Err(ScanError::new_str(
+            // Reject non-shortest forms: the character must need all the bytes that were given.
+            Some(ch) if ch.len_utf8() == len => Ok(ch),
+            _ => Err(ScanError::new_str(
                 *mark,
                 "while parsing a tag, found an invalid UTF-8 codepoint",
             )),
